@@ -327,6 +327,7 @@ def run(chk):
     expression_builder_keeps_operators(chk)
     expression_statements_kept(chk)
     with_modifier_keywords(chk)
+    assignment_targets_built(chk)
     comprehension_clauses(chk)
     chk.use_engine(e)
 
@@ -529,6 +530,100 @@ def with_modifier_keywords(chk):
             return z3.BoolVal(p.kind == "return" and isinstance(p.value, SObj) and p.value.cls.name in ("Dagger", "Control", "Power"))
         chk.prove_paths(f"_handle_withitem[with {src}]:{'keyword-argument-rejected-as-unsupported' if must else 'modifier-built'}", e.explore(t), post, func=f"{BM}:CFGBuilder._handle_withitem",
                         replay=(lambda m_: {"script": REPLAY_WITH_KW, "input": {}}) if must else None)
+    chk.use_engine(e)
+
+REPLAY_TARGETS = r'''
+import guppy_plainbool
+import tempfile, importlib.util, os, sys, shutil
+from guppylang_internals.error import GuppyError
+src = """from guppylang import guppy
+from guppylang.std.builtins import array, result
+@guppy
+def cond_index(c: bool) -> int:
+    xs = array(1, 2, 3)
+    xs[1 if c else 0] = 7
+    return xs[0] * 100 + xs[1] * 10 + xs[2]
+@guppy
+def bool_index(a: bool, b: bool) -> int:
+    xs = array(1, 2, 3)
+    xs[int(a and b)] = 7
+    return xs[0] * 100 + xs[1] * 10 + xs[2]
+@guppy
+def walrus_index() -> int:
+    xs = array(1, 2, 3)
+    xs[(j := 1)] = 7
+    return xs[j] * 10 + j
+@guppy
+def two_targets(c: bool) -> int:
+    xs = array(1, 2, 3); ys = array(4, 5)
+    xs[2 if c else 1], ys[0 if c else 1] = 8, 9
+    return xs[1] * 1000 + xs[2] * 100 + ys[0] * 10 + ys[1]
+@guppy
+def int_min_index() -> None:
+    xs = array(1, 2, 3)
+    xs[-9223372036854775808] = 1
+@guppy
+def main() -> None:
+    result("r", cond_index(True)); result("r", cond_index(False)); result("r", bool_index(True, True)); result("r", walrus_index()); result("r", two_targets(True)); result("r", two_targets(False))
+"""
+d = tempfile.mkdtemp(dir=os.environ.get("TMPDIR", "/var/tmp")); fn = os.path.join(d, "replay_c32t.py"); open(fn, "w").write(src)
+spec = importlib.util.spec_from_file_location("replay_c32t", fn); m = importlib.util.module_from_spec(spec); sys.modules["replay_c32t"] = m
+spec.loader.exec_module(m)
+res = {}
+for name in ("cond_index", "bool_index", "walrus_index", "two_targets", "int_min_index"):
+    try:
+        getattr(m, name).check(); res[name] = "accepted"
+    except GuppyError as ex:
+        res[name] = "rejected:" + type(ex.error).__name__
+    except Exception as ex:
+        res[name] = "crash:" + type(ex).__name__
+vals = None
+if all(v == "accepted" for v in res.values()):
+    vals = [int(v) for t, v in list(m.main.emulator(n_qubits=1).run().results)[0].entries]
+shutil.rmtree(d, ignore_errors=True)
+want = [173, 723, 173, 71, 2895, 8349]
+print(json.dumps({"violates": vals != want, "observed": {"check": res, "values": vals}, "required": {"values": want}}))
+'''
+
+
+def assignment_targets_built(chk):
+    """CFGBuilder.visit_Assign / _build_target (cfg/builder.py): the index expressions of an assignment target are
+    expressions like any other — after CFG construction no basic block holds a conditional, boolean or
+    assignment expression (the checker has no rule for them: InternalGuppyError), negative literals in them are
+    folded, and every name they bind is bound in a block that precedes the assignment."""
+    from . import C03 as C3
+    from .common import ast_from_source
+    BM = "guppylang_internals.cfg.builder"
+    e = C3.cfg_engine(chk)
+    e.func_info(BM, "CFGBuilder.visit_Assign")
+    try:
+        e.func_info(BM, "CFGBuilder._build_target")
+    except KeyError:
+        pass
+    STMTS = ["xs[1 if c else 0] = 7", "xs[int(a and b)] = 7", "xs[(j := 1)] = 7", "xs[-9223372036854775808] = 1", "xs[2 if c else 1], ys[0 if c else 1] = 8, 9", "s.f[0 if c else 1] = 2",
+             "m[1 if c else 0][i] = 3", "m[i][0 if c else 1] = 3", "xs[not c] = 1", "xs[i] = 7", "[xs[0 if c else 1], y] = t", "xs[0 if c else 1], *r = t", "xs[i if c else j] = (1 if c else 2)"]
+    BANNED = {"IfExp", "BoolOp", "NamedExpr", "ListComp"}
+    for st in STMTS:
+        def t(it, st=st):
+            m = e.module(BM)
+            it.ctx.mod_globals(m)["tmp_vars"] = [f"%tmp{k}" for k in range(50)]
+            CB = it.lookup_global(m, "CFGBuilder")
+            fd = ast_from_source(it, f"def fn():\n    {st}\n").fields["body"][0]
+            return it.call_method(it.call(CB, [], {}), "build", [fd.fields["body"], True, SObj(ClassVal("Globals", builtin=True), {})])
+        paths = e.explore(t)
+
+        def post(p, st=st):
+            if p.kind != "return":
+                return z3.BoolVal(False)
+            stmts = [C3.to_real_ext(s_) for bb in p.value.fields["bbs"] for s_ in bb.fields["statements"]]
+            preds = [C3.to_real_ext(bb.fields["branch_pred"]) for bb in p.value.fields["bbs"] if bb.fields.get("branch_pred") is not None]
+            bad = [type(n).__name__ for s_ in stmts + preds for n in ast.walk(s_) if type(n).__name__ in BANNED]
+            unfolded = [1 for s_ in stmts for n in ast.walk(s_) if isinstance(n, ast.UnaryOp) and isinstance(n.op, ast.USub) and isinstance(n.operand, ast.Constant)]
+            # the assignment itself is still there, once, with its targets in the written order
+            assigns = [s_ for s_ in stmts if isinstance(s_, ast.Assign) and any(isinstance(n, ast.Subscript) for tg in s_.targets for n in ast.walk(tg))]
+            return z3.BoolVal(not bad and not unfolded and len(assigns) == 1)
+        chk.prove_paths(f"visit_Assign[{st}]:no-control-flow-expression-left-in-a-block/\\negative-literals-folded/\\the-assignment-reaches-a-block-once", paths, post, func=f"{BM}:CFGBuilder.visit_Assign",
+                        replay=lambda m_: {"script": REPLAY_TARGETS, "input": {}})
     chk.use_engine(e)
 
 
